@@ -10,6 +10,7 @@ import (
 	"os"
 	"sort"
 	"strings"
+	"sync"
 )
 
 // Out collects case lines and distribution statistics.
@@ -32,6 +33,27 @@ func (o *Out) Run(scn string, in string) string {
 	out := execCase(scn, in)
 	o.Case(scn, in, out)
 	return out
+}
+
+// RunMany executes the cases in parallel (order of the output is the order of ins).
+func (o *Out) RunMany(scn string, ins []string) []string {
+	outs := make([]string, len(ins))
+	var wg sync.WaitGroup
+	sem := make(chan struct{}, 48)
+	for i := range ins {
+		wg.Add(1)
+		sem <- struct{}{}
+		go func(i int) {
+			defer wg.Done()
+			outs[i] = execCase(scn, ins[i])
+			<-sem
+		}(i)
+	}
+	wg.Wait()
+	for i := range ins {
+		o.Case(scn, ins[i], outs[i])
+	}
+	return outs
 }
 
 // executors: scenario name -> run the implementation on the input tokens
